@@ -130,7 +130,7 @@ CurRule == rules[part[CurKind][ri]]
 CurElemKind == LET root == files[fi][vi][si] IN IF root.a THEN root.es[ei + 1] ELSE root.es[1]
 
 Run ==
-  \/ Internal \/ NextValue \/ NextElement \/ ConsumeNext \/ Exit \/ Finish
+  \/ Internal \/ NextValue \/ NextSelector \/ NextElement \/ ConsumeNext \/ Exit \/ Finish
   \/ phase = "begin" /\ ri <= N("B") /\ RunBegin(SigOf(CurRule))
   \/ phase = "files" /\ level = "bf" /\ ri <= N("BF") /\ RunBeginFile(SigOf(CurRule))
   \/ phase = "files" /\ level = "ef" /\ ri <= N("EF") /\ RunEndFile(SigOf(CurRule))
